@@ -19,6 +19,7 @@ R11.7  determinism of the bytes (sorted iteration inside serializers, sorted JSO
 from __future__ import annotations
 
 import ast
+import re
 
 from ..cfg import call_name
 from ..index import AnalysisError, ClassInfo, FuncInfo, get_index, norm
@@ -291,6 +292,9 @@ def _hook_tail(chk, ix, R, terms):
     run_order_discipline(chk, ix, R)
     run_field_coverage(chk, ix, R, terms)
     run_fixup(chk, ix)
+    run_special_alias_rebuild(chk, ix)
+    run_json_representable(chk, ix)
+    run_definition_after_load(chk, ix)
     run_none_encoding(chk, ix, R)
 
 
@@ -873,3 +877,106 @@ def run_json_conversions(chk: Check, ix, rid: str = "R11.13", only: tuple[str, .
                         r.violation(key, de.loc(), f"serialize() stores '{k.value}' through {conv[0]} but deserialize() does not apply {conv[1]}: after a reload from the JSON cache the field holds {'string keys' if conv[1] == 'int' else 'hex strings'} where the rest of mypy (and the binary format) uses {'ints' if conv[1] == 'int' else 'bytes'}, so lookups/comparisons against fresh values silently fail")
     if n < floor:
         raise AnalysisError(f"only {n} converted JSON fields found")
+
+
+def run_special_alias_rebuild(chk: Check, ix) -> None:
+    """R11.14: whoever rebuilds the derived fields of a special alias rebuilds all of them."""
+    r14 = chk.rule("R11.14", "TypeInfo.special_alias (the alias view of a named tuple / TypedDict class) is not serialised; its type-variable fields are derived from the class's type variables: `alias_tvars` (the list) and `tvar_tuple_index` (the position of the TypeVarTuple in that list). Every place that assigns `<info>.special_alias.alias_tvars` (semantic analysis when the class is complete; fix-up after loading from the cache, once for tuple types and once for TypedDicts) also sets `<info>.special_alias.tvar_tuple_index` in the same branch: a reloaded variadic TypedDict with the list but without the index rejects `Row[int, str, float]` and crashes type expansion", floor=3)
+    n = 0
+    for q, f in sorted(ix.functions.items()):
+        if f.parent is not None or not f.module.name.startswith("mypy.") or ".test" in f.module.name:
+            continue
+        par = None
+        for a in ast.walk(f.node):
+            if isinstance(a, ast.Assign) and len(a.targets) == 1 and isinstance(a.targets[0], ast.Attribute) and a.targets[0].attr == "alias_tvars" and isinstance(a.targets[0].value, ast.Attribute) and a.targets[0].value.attr == "special_alias":
+                par = par or f.module.parents()
+                base = norm(a.targets[0].value)
+                blk_owner = par.get(a)
+                siblings = []
+                for fld in ("body", "orelse"):
+                    b = getattr(blk_owner, fld, None)
+                    if isinstance(b, list) and any(x is a for x in b):
+                        siblings = b
+                n += 1
+                key = f"{q}: `{base}.alias_tvars` and `{base}.tvar_tuple_index` are rebuilt together"
+                if any(isinstance(x, ast.Assign) and norm(x.targets[0]) == f"{base}.tvar_tuple_index" for st in siblings for x in ast.walk(st)):
+                    r14.ok(key, f.loc(a))
+                else:
+                    r14.violation(key, f.loc(a), f"this branch sets `{base}.alias_tvars` but not `{base}.tvar_tuple_index`: for a class generic in a TypeVarTuple the alias says it has N type variables and no variadic one")
+    if n < 3:
+        raise AnalysisError(f"only {n} assignments of special_alias.alias_tvars found")
+
+
+NON_JSON_TYPES = ("complex", "bytes", "bytearray", "set", "frozenset")
+
+
+def run_json_representable(chk: Check, ix) -> None:
+    """R11.15: what serialize() stores without conversion is something JSON can hold."""
+    r15 = chk.rule("R11.15", "a JSON serializer (`serialize` methods of nodes and types) that stores an attribute as it is (`\"k\": self.attr`, `data[\"k\"] = self.attr`) does so only for attributes whose declared type JSON can represent: an attribute annotated with complex / bytes / set / frozenset among its alternatives is converted first (and converted back by deserialize), otherwise json.dumps raises on the first module that has such a value (INTERNAL ERROR with --no-fixed-format-cache) while the binary format works", floor=40)
+    n = 0
+    for cq, c in sorted(ix.classes.items()):
+        if not cq.startswith(("mypy.nodes.", "mypy.types.", "mypy.cache.")) or "serialize" not in c.methods:
+            continue
+        f = c.methods["serialize"]
+        par = f.module.parents()
+        stores: list[tuple[str, ast.Attribute, ast.AST]] = []
+        for x in ast.walk(f.node):
+            if isinstance(x, ast.Dict):
+                for k, v in zip(x.keys, x.values):
+                    if isinstance(k, ast.Constant) and isinstance(v, ast.Attribute) and isinstance(v.value, ast.Name) and v.value.id == "self":
+                        stores.append((str(k.value), v, v))
+            elif isinstance(x, ast.Assign) and len(x.targets) == 1 and isinstance(x.targets[0], ast.Subscript) and isinstance(x.targets[0].slice, ast.Constant) and isinstance(x.value, ast.Attribute) and isinstance(x.value.value, ast.Name) and x.value.value.id == "self":
+                stores.append((str(x.targets[0].slice.value), x.value, x))
+        for key_name, v, node in stores:
+            an, _owner = c.lookup_annot(v.attr)
+            if an is None:
+                continue
+            t = norm(an)
+            n += 1
+            bad = [w for w in NON_JSON_TYPES if re.search(rf"\b{w}\b", t)]
+            key = f"{cq}.serialize: \"{key_name}\" <- self.{v.attr} ({t[:50]})"
+            if not bad:
+                r15.ok(key, f.loc(node))
+                continue
+            # a verbatim store is fine if the branch excludes the non-JSON alternative
+            from ..cfg import branch_conditions
+            st = node
+            while not isinstance(st, ast.stmt):
+                st = par[st]
+            pos, neg = branch_conditions(par, f.node, st, early_exits=True)
+            excluded = any(isinstance(cx, ast.Call) and call_name(cx) == "isinstance" and any(b in norm(cx) for b in bad) for t_ in neg for cx in ast.walk(t_))
+            if excluded:
+                r15.ok(key, f.loc(node), f"the {bad} alternative is converted in another branch")
+            else:
+                r15.violation(key, f.loc(node), f"self.{v.attr} is declared `{t}` and stored as it is: a {bad[0]} value makes json.dumps fail when the module is written to the JSON cache")
+    if n < 40:
+        raise AnalysisError(f"only {n} verbatim attribute stores with a declared type found in serialize methods")
+
+
+def run_definition_after_load(chk: Check, ix) -> None:
+    """R11.16: what fix-up establishes on every loaded function, a fresh analysis establishes too."""
+    r16 = chk.rule("R11.16", "fix-up sets `func.type.definition = func` on every FuncDef it loads (the definition is not serialised), so after a reload every method has one; the helpers that synthesise methods during a fresh analysis (mypy/plugins/common.py: the FuncDef of a dataclass __init__ and friends) therefore set it as well, or messages that consult it ('\"D\" defined in \"a\"') are printed on warm runs only", floor=2)
+    fx = ix.func("mypy.fixup.NodeFixer.visit_func_def")
+    sets = any(isinstance(a, ast.Assign) and isinstance(a.targets[0], ast.Attribute) and a.targets[0].attr == "definition" for a in ast.walk(fx.node))
+    if not sets:
+        r16.info("fix-up no longer sets CallableType.definition", fx.loc(), "nothing to agree with")
+        return
+    r16.ok("fix-up sets the definition of every loaded FuncDef's type", fx.loc())
+    mod = ix.module("mypy.plugins.common")
+    n = 0
+    for f in sorted(mod.functions.values(), key=lambda f: f.node.lineno):
+        makes = [a for a in ast.walk(f.node) if isinstance(a, ast.Assign) and isinstance(a.value, ast.Call) and call_name(a.value) == "FuncDef" and isinstance(a.targets[0], ast.Name)]
+        for mk in makes:
+            v = mk.targets[0].id
+            typed = [a for a in ast.walk(f.node) if isinstance(a, ast.Assign) and norm(a.targets[0]) == f"{v}.type"]
+            if not typed:
+                continue
+            n += 1
+            key = f"{f.qualname}: the synthesised FuncDef `{v}` gets a type with its definition"
+            has_def = any(isinstance(a, ast.Assign) and norm(a.targets[0]) == f"{v}.type.definition" for a in ast.walk(f.node)) or any(isinstance(k, ast.keyword) and k.arg == "definition" for a in typed for k in ast.walk(a.value))
+            if has_def:
+                r16.ok(key, f.loc(typed[0]))
+            else:
+                r16.violation(key, f.loc(typed[0]), f"`{v}.type` is assigned but its `definition` stays None until the module is reloaded from the cache, where fix-up sets it: diagnostics about calls of the generated method differ between cold and warm runs")
+    if n < 1:
+        raise AnalysisError("no synthesised FuncDef with a type found in mypy/plugins/common.py")
